@@ -38,6 +38,8 @@ var profiles = map[string]*Profile{
 	"C02": {Name: "C02", MaxConns: 6, MaxSess: 2, Len: 90, StepPct: 85, SnapPct: 3,
 		W: map[string]int{"connect": 5, "disconnect": 5, "join": 16, "entity_add": 12, "entity_delete": 7, "pose": 26, "tick": 14, "step": 4, "custom": 8, "action": 8, "asset": 6, "comp_add": 2, "type_add": 1}},
 	"C03": {Name: "C03", MaxConns: 6, MaxSess: 3, Len: 120, W: withW(map[string]int{"join": 20, "disconnect": 5, "latency": 0, "ping_resp": 0, "receipt": 0, "action": 10, "asset": 8, "entity_add": 12, "pose": 4, "comp_update": 3, "tick": 4}), StepPct: 92, SnapPct: 100},
+	// the purge experiment: two groups of connections that mostly keep to sessions of their own group, more sessions, module traffic
+	"C03p": {Name: "C03p", MaxConns: 7, MaxSess: 5, Len: 130, Groups: 2, W: withW(map[string]int{"join": 16, "disconnect": 4, "latency": 0, "ping_resp": 0, "receipt": 0, "action": 8, "asset": 8, "entity_add": 12, "pose": 6, "comp_update": 4, "tick": 6, "dagaz": 14, "custom": 7}), StepPct: 90, SnapPct: 0},
 	"C04": {Name: "C04", MaxConns: 5, MaxSess: 3, Len: 100, W: withW(map[string]int{"latency": 6, "ping_resp": 18, "tick": 3, "pose": 3, "comp_update": 3, "custom": 2, "receipt": 3, "dagaz": 3, "ping": 2}), StepPct: 90, SnapPct: 45},
 	"C05": {Name: "C05", MaxConns: 6, MaxSess: 2, Len: 90, StepPct: 85, SnapPct: 15,
 		W: map[string]int{"connect": 4, "disconnect": 6, "join": 14, "entity_add": 14, "entity_delete": 14, "pose": 14, "tick": 8, "step": 3, "asset": 12, "action": 2}},
@@ -122,6 +124,14 @@ func main() {
 		per := fs.Int("per", 4, "flag sets per history (0 = all 1024 subsets spread over the histories, 16 each)")
 		fs.Parse(os.Args[2:])
 		flagrun(*in, *out, *seed, *per)
+	case "purgerun":
+		fs := flag.NewFlagSet("purgerun", flag.ExitOnError)
+		in := fs.String("in", "", "trace of histories")
+		out := fs.String("out", "purge.txt", "output: G line, full trace, purged trace per experiment")
+		groups := fs.Int("groups", 2, "experiments per history (largest groups first)")
+		statsF := fs.String("stats", "", "write statistics (json)")
+		fs.Parse(os.Args[2:])
+		purgerun(*in, *out, *groups, *statsF)
 	case "replay":
 		fs := flag.NewFlagSet("replay", flag.ExitOnError)
 		in := fs.String("in", "", "history (or trace) file: H / O / E lines are used")
@@ -132,6 +142,11 @@ func main() {
 		fmt.Fprintln(os.Stderr, "unknown command", os.Args[1])
 		os.Exit(2)
 	}
+}
+
+func writeJSON(path string, v interface{}) {
+	b, _ := json.MarshalIndent(v, "", " ")
+	os.WriteFile(path, b, 0644)
 }
 
 func parseInts(s string) []int64 {
